@@ -187,8 +187,22 @@ def param_space_packages(rng, n):
         # falsy but meaningful values (0, 0.0, the empty string) on a param-class typed external module
         E2 = h.ExternalModule(name=f"ExtF{k % 2}", port_list=[h.Port(name="p"), h.Port(name="n")], paramtype=FalsyParams)
         m.y = E2(FalsyParams(m=rng.choice([0, 2]), nrd=rng.choice([0.0, 0.5]), opts=rng.choice(["", "o"]), w=rng.choice([0, 1])))(p=m.a, n=m.b)
+        # a second instance of the same targets whose parameters are equal in value but written differently (another prefix, float for int)
+        lower = [q for q in prefixes if q.value == pre.value - 3]
+        val2 = Prefixed(number=num * 1000, prefix=lower[0]) if lower else Prefixed(number=num, prefix=pre)
+        m.r2 = h.R(r=val2)(p=m.a, n=m.b)
+        m.x2 = E({"s": "str", "n": 4.0, "f": 0.25, "p": val2, "l": h.Literal("lit")})(i=m.bus[0:2], o=m.bus[2], p=m.b)
+        m.v2 = h.Vdc(dc=val2, ac=rng.choice([None, 1.0]))(p=m.a, n=m.b)
+        # explicit Literals whose text looks like a number stay Literals, on every kind of primitive
+        m.r3 = h.R(r=h.Literal(rng.choice(["100", "1e-6", " 2.50 ", "1_000", "+3"])))(p=m.a, n=m.b)
+        m.vp2 = h.Vpulse(v1=h.Literal("0"), v2="vhi", delay=h.Literal("1e-9"), rise=h.Literal("2"), period="per", width=val)(p=m.c, n=m.b)
+        m.mos = h.Mos(model=rng.choice([None, "nch"]), w=h.Literal("2"), l=rng.choice(["lmin", h.Literal("0.5")]))(d=m.a, g=m.c, s=m.b, b=m.b)
         m.literals.append(h.Literal(f".param k={k}"))
         m.literals.append(h.Literal("* second literal"))
+        # the same line again, next to itself and further down
+        m.literals.append(h.Literal("* second literal"))
+        m.literals.append(h.Literal("`endif"))
+        m.literals.append(h.Literal(f".param k={k}"))
         out.append((f"params:{k}", m))
     # modules defined outside any Python module (exec-ed source with fresh globals, as in a notebook cell or `python -c`)
     src = ("import hdl21 as h\n@h.module\nclass LeafX:\n    a = h.Port()\n    r = h.R(r=1)(p=a, n=a)\n"
